@@ -165,6 +165,18 @@ def cks_extra(tier, seed):
         out.append({'kind': 'tcp4', 'src': [10, 0, 0, 1], 'dst': [10, 0, 0, 2], 'hdr': th, 'payload': pl})
         out.append({'kind': 'tcp6', 'src': s6, 'dst': d6, 'hdr': th, 'payload': pl})
         out.append({'kind': 'icmp6', 'src': s6, 'dst': d6, 'hdr': [128, 0] + rb(6), 'payload': pl})
+    # every assigned (type, code) pair of ICMPv4 / ICMPv6 (each has its own arm in the checksum code) and unassigned neighbours
+    pairs4 = [(3, c) for c in range(0, 17)] + [(5, c) for c in range(0, 5)] + [(11, c) for c in range(0, 3)] + [(12, c) for c in range(0, 4)] + \
+             [(0, 0), (0, 1), (8, 0), (8, 1), (13, 0), (14, 0), (13, 1), (4, 0), (15, 0), (42, 0), (255, 255)]
+    pairs6 = [(1, c) for c in range(0, 8)] + [(2, 0), (2, 1)] + [(3, c) for c in range(0, 3)] + [(4, c) for c in range(0, 12)] + \
+             [(128, 0), (129, 0), (128, 1), (133, 0), (134, 0), (135, 0), (136, 0), (137, 0), (133, 1), (130, 0), (143, 0), (255, 0)]
+    for (t, c) in pairs4:
+        for ln in ((0, 9) if tier == 'quick' else (0, 1, 2, 9, 64)):
+            ipl = rb(12, 'rnd') if (t in (13, 14) and c == 0) else rb(ln)
+            out.append({'kind': 'icmp4', 'src': [], 'dst': [], 'hdr': [t, c] + rb(6, 'rnd' if ln else 'ff'), 'payload': ipl})
+    for (t, c) in pairs6:
+        for ln in ((0, 41) if tier == 'quick' else (0, 1, 16, 41, 64)):
+            out.append({'kind': 'icmp6', 'src': rb(16), 'dst': rb(16), 'hdr': [t, c] + rb(6, 'rnd' if ln else 'ff'), 'payload': rb(ln)})
     for ihl in range(5, 16):
         for rep in range(6 if tier == 'quick' else 40):
             h = rb(4 * ihl)
